@@ -22,6 +22,9 @@ CLAIMED = {
  'C07': dict(text="Statistic = property's recurrence over the batch mean, verdict iff t>=min and g>lambda, shift invariance and lambda antitonicity proved over R for all streams and configurations; warm-up/no-latch for every number system. Binary64 model compared with the code at every step; invariances also checked on the implementation.",
              note="Trusted: Coq kernel; Reals axioms; correspondence by differential testing.",
              tech="Coq proof (induction over the stream, refinement to the batch recurrence) + correspondence check"),
+ 'C17': dict(text="For EVERY detector model, number system, configuration and history of updates/resets: the history callback holds exactly one entry per update since the last reset for every tracked variable, entry i being the input, counter, drift flag and the variable's value in the detector state right after update i; the registration chain yields each name once; attaching the callback leaves the detector's state equal to the detector run alone; reset empties the history. ResetStatisticalTest: reset iff p <= alpha and the returned result is the pre-reset one, over all fit/compare/reset sequences. Tied to the code per run on the 13 detectors (history compared with the model's, field by field) and 6 statistical-test detectors.",
+             note="Trusted: Coq kernel/vm_compute (theorems are axiom-free); tracked non-scalar objects are recorded by reference and are outside the property's 'scalar statistics'; the statistical test's p-value is an oracle for the reset model; BWSTest excluded from the reset oracle (Monte-Carlo p-value).",
+             tech="Coq proof (invariant over operation lists for the generic detector+callback system) + model-vs-code correspondence and per-step monitor"),
  'C18': dict(text="Closed forms of Mean/EWMA/CircularMean/PrequentialError proved over R for all streams; ring buffer proved to refine a bounded deque for every operation sequence and capacity >= 1; AccuracyQueue counts proved. Model tied to the code on every run (queue transitions exhaustively to closure for capacities 1-3).",
              note="Trusted: Coq kernel + vm_compute; Reals axioms for the R theorems; rounding not covered by R theorems.",
              tech="Coq proof (refinement to a deque by induction over operation lists; closed forms over R) + correspondence check"),
